@@ -153,8 +153,16 @@ def c09_jobs(tier):
 
 
 def c18_jobs(tier):
-    steps = [1, 2] if tier == "quick" else [1, 2, 3]
-    return [J("ast", "ZZ_C18_producers", w0=w, steps=s, timeout_s=(1500 if tier == "quick" else 7200)) for w in (0, 1, 2) for s in steps]
+    if tier == "quick":
+        return [J("ast", "ZZ_C18_producers", w0=w, steps=s, timeout_s=1500) for w in (0, 1, 2) for s in (1, 2)]
+    jobs = [J("ast", "ZZ_C18_producers", w0=w, steps=s, timeout_s=7200) for w in (0, 1, 2) for s in (1, 2)]
+    # three calls: sharded over direction, name and the first operation (18 shards per start state)
+    for w in (0, 1, 2):
+        for d in range(3):
+            for nm in range(2):
+                for op in range(3):
+                    jobs.append(J("ast", "ZZ_C18_producers", w0=w, steps=3, timeout_s=7200, **{"force.dir": d, "force.name": nm, "force.op_0": op}))
+    return jobs
 
 
 def c16_jobs(tier):
